@@ -422,16 +422,61 @@ def run(ctx):
                               out[0:2], got, want_lines))
     f_tf = ctx.anchor("Gfa.to_file", gfacls.find_method("to_file"))
     ctx.instance(R)
-    writes = [n for n in ast.walk(f_tf.node)
-              if isinstance(n, ast.Call) and isinstance(n.func, ast.Attribute)
-              and n.func.attr == "write"]
-    ok = len(writes) == 1 and len(writes[0].args) == 1 and \
-        is_str_plus_lf(writes[0].args[0])
+
+    class OutFile:
+        def __init__(self):
+            self.chunks = []
+
+        def write(self, text):
+            self.chunks.append(text)
+
+        def writelines(self, texts):
+            self.chunks.extend(texts)
+    outfile = OutFile()
+
+    class WriteHooks(_GH):
+        def function(self, ev, node, args, kwargs):
+            if isinstance(node.func, ast.Name) and node.func.id == "open":
+                ev.events.append(("open",) + tuple(args) + tuple(
+                    sorted(kwargs.items())))
+                return outfile
+            if isinstance(node.func, ast.Name) and node.func.id == "print" \
+                    and "file" in kwargs:
+                kwargs["file"].write(
+                    kwargs.get("sep", " ").join(
+                        self.to_str(ev, a) if isinstance(a, Abs) else str(a)
+                        for a in args) + kwargs.get("end", "\n"))
+                return None
+            return super().function(ev, node, args, kwargs)
+
+        def method(self, ev, base, name, args, kwargs, node):
+            if base is outfile and name in ("write", "writelines"):
+                getattr(outfile, name)(*args)
+                return None
+            return super().method(ev, base, name, args, kwargs, node)
+
+        def to_str(self, ev, v):
+            return "<%s>" % v.label
+    lines_out = [Abs(repo.cls("line.Gap"), label="l%d" % i)
+                 for i in range(3)]
+    g = Abs(gfacls, label="gfa", lines=lines_out)
+    try:
+        out = eval_function(repo, f_tf, [g, "out.gfa"],
+                            hooks=WriteHooks(repo))
+    except Unsupported as e:
+        raise AnalysisError(str(e))
+    written = "".join(outfile.chunks)
+    opened = [e for e in out[2] if e[0] == "open"]
+    ok = out[0] in ("return", "fall") and written == "<l0>\n<l1>\n<l2>\n" \
+        and len(opened) == 1 and "w" in [a for a in opened[0][2:]
+                                        if isinstance(a, str)] + [
+            v for a in opened[0][2:] if isinstance(a, tuple) for v in a]
     ctx.oblige(ok)
     if not ok:
         ctx.violation(R, f_tf.short, "write",
-                      "each line must be written as str(line) + LF (found %s)"
-                      % [unparse(w) for w in writes])
+                      "outcome %r; opens %r and writes %r; each line must be "
+                      "written as str(line) followed by one LF" % (
+                          out[0:2], opened, written))
     f_init = ctx.anchor("Gfa.__init__", gfacls.find_method("__init__"))
     # Gfa(text) / Gfa(list): interpreted with the adders stubbed -- the text
     # is cut at LF only (not at CR, VT, FF, the Unicode separators, which
